@@ -70,9 +70,9 @@ func (w *Worker) serialize(t types.Type, v value, out []value, depth int) []valu
 			}
 			return out
 		case *Term:
-			// symbolic quantity: 32-byte two's complement image; sound only inside [0, 2^256)
-			w.assumeRange256(b)
-			bv := w.tc.Int2Bv(b, 256)
+			// symbolic integer: 32 bytes of an injective uninterpreted encoding BigEnc(x)
+			// (the bytes are only ever compared / hashed, never decoded arithmetically)
+			bv := w.tc.Apply("BigEnc", BV(256), b)
 			out = append(out, uint64(0xB2))
 			for i := 0; i < 32; i++ {
 				out = append(out, simp(w.tc.Extract(bv, 255-8*i, 248-8*i)))
